@@ -275,14 +275,107 @@ theorem exists_flag {ps : List Param} {p : Param} (h : p ∈ ps) : ∃ f, (p, f)
   exact ⟨pf.2, hpf⟩
 
 
+/-! ### abbreviations of long options -/
+
+theorem longMatches_unique : ∀ {tbl : List OptSpec}, (tbl.map (·.long)).Nodup → ∀ {o : OptSpec}, o ∈ tbl → ∀ {n : Str},
+    n <+: o.long → (∀ x ∈ tbl, n <+: x.long → x.long = o.long) → longMatches tbl n = [o]
+  | [], _, _, ho, _, _, _ => by simp at ho
+  | b :: tbl, hnd, o, ho, n, hn, hu => by
+    rw [List.map_cons, List.nodup_cons] at hnd
+    have hrest : ∀ x ∈ tbl, n <+: x.long → x.long = o.long := fun x hx => hu x (List.mem_cons_of_mem _ hx)
+    rcases List.mem_cons.mp ho with rfl | ho'
+    · have hnil : longMatches tbl n = [] := by
+        simp only [longMatches, List.filter_eq_nil_iff]
+        intro x hx hq
+        have := hrest x hx (List.isPrefixOf_iff_prefix.mp hq)
+        exact hnd.1 (List.mem_map.mpr ⟨x, hx, this⟩)
+      have hq : n.isPrefixOf o.long = true := List.isPrefixOf_iff_prefix.mpr hn
+      simp only [longMatches] at hnil ⊢
+      simp [hq, hnil]
+    · have hb : n.isPrefixOf b.long = false := by
+        cases hq : n.isPrefixOf b.long with
+        | false => rfl
+        | true =>
+          have := hu b (by simp) (List.isPrefixOf_iff_prefix.mp hq)
+          exact absurd (List.mem_map.mpr ⟨o, ho', this.symm⟩) hnd.1
+      have ih := longMatches_unique hnd.2 ho' hn hrest
+      simp only [longMatches] at ih ⊢
+      simp [hb, ih]
+
+/-- a prefix of exactly one long option string resolves to that option -/
+theorem resolveLong_of_abbrev {tbl : List OptSpec} (hok : optsOk tbl = true) {o : OptSpec} (ho : o ∈ tbl) {n : Str}
+    (hn : n <+: o.long) (hu : ∀ x ∈ tbl, n <+: x.long → x.long = o.long) : resolveLong tbl n = .one o := by
+  have hok' := hok
+  simp only [optsOk, Bool.and_eq_true, distinctB_iff] at hok'
+  unfold resolveLong
+  cases hf : findLong tbl n with
+  | some x =>
+    have hx := List.mem_of_find?_eq_some hf
+    have hq : x.long = n := by simpa using List.find?_some hf
+    have := hu x hx (hq ▸ List.prefix_refl _)
+    simp [nodup_map_inj hok'.2 x hx o ho this]
+  | none => simp [longMatches_unique hok'.2 ho hn hu]
+
+/-- an exact option string resolves to its option, whatever else it is a prefix of -/
+theorem resolveLong_exact {tbl : List OptSpec} (hok : optsOk tbl = true) {o : OptSpec} (ho : o ∈ tbl) :
+    resolveLong tbl o.long = .one o := by
+  simp [resolveLong, findLong_of_mem hok ho]
+
+theorem dash_ne_nil {n : Str} (h : isIdent n = true) : dash n ≠ [] := by
+  cases n with
+  | nil => simp [isIdent] at h
+  | cons a l => simp [dash]
+
+theorem paramsOk_ident {ps : List Param} (h : paramsOk ps = true) {p : Param} (hp : p ∈ ps) : isIdent p.name = true := by
+  simp only [paramsOk, Bool.and_eq_true, List.all_eq_true] at h
+  exact h.1.1.1.1 p hp
+
 /-! ### scanning written options -/
 
 def addOpts (st : PState) (cs : List Choice) : PState := cs.foldl (fun st c => st.addOpt c.p.name c.val) st
 
+/-- the name a choice writes behind `--` (in full or abbreviated) is not empty and resolves to the choice's option -/
+theorem resolve_choice {ps : List Param} (hok : paramsOk ps = true) {c : Choice} (hc : c.ok ps) :
+    c.longName ≠ [] ∧ ∃ f, resolveLong (optTable ps) c.longName = .one (specOf c.p f) := by
+  obtain ⟨hmem, hopt, _, _, habbr, _⟩ := hc
+  have hT := optsOk_optTable hok
+  obtain ⟨f, hf⟩ := exists_flag hmem
+  have hsp := spec_mem hf hopt
+  cases ha : c.abbr with
+  | none =>
+    have := resolveLong_exact hT hsp
+    simp only [specOf] at this
+    exact ⟨by simpa [Choice.longName, ha] using dash_ne_nil (paramsOk_ident hok hmem), f, by simpa [Choice.longName, ha, specOf] using this⟩
+  | some n =>
+    obtain ⟨hne, hpre, hu⟩ := habbr n ha
+    have := resolveLong_of_abbrev hT hsp (n := n) (by simpa [specOf] using hpre) (by simpa [specOf] using hu)
+    exact ⟨by simpa [Choice.longName, ha] using hne, f, by simpa [Choice.longName, ha] using this⟩
+
+theorem scanOpts_long_cons {me : Str} {tbl : List OptSpec} {n : Str} (hn : n ≠ []) (rest : List Tok) (st : PState) :
+    scanOpts me tbl (.long n :: rest) st =
+      match resolveLong tbl n with
+      | .unknown => scanOpts me tbl rest { st with extras := true }
+      | .ambiguous => .stop (some (.error .ambiguous))
+      | .one o =>
+        match o.param with
+        | none => .stop (some (.help (some me)))
+        | some p =>
+          if p.kind = .flag then scanOpts me tbl rest (st.addOpt p.name (.flag true))
+          else match rest with
+            | .word v :: rest' =>
+              match convert p.conv v with
+              | none => .stop (some (.error .badValue))
+              | some a => scanOpts me tbl rest' (st.addOpt p.name (.one a))
+            | _ => .stop (some (.error .needsValue)) := by
+  cases n with
+  | nil => exact absurd rfl hn
+  | cons a l => rw [scanOpts] <;> first | rfl | (intro h; cases h)
+
 theorem scanOpts_choice {ps : List Param} (hok : paramsOk ps = true) (me : Str) {c : Choice} (hc : c.ok ps)
     (rest : List Tok) (st : PState) :
     scanOpts me (optTable ps) (c.render ++ rest) st = scanOpts me (optTable ps) rest (st.addOpt c.p.name c.val) := by
-  obtain ⟨hmem, hopt, hshort, hconv⟩ := hc
+  obtain ⟨hne, g, hres⟩ := resolve_choice hok hc
+  obtain ⟨hmem, hopt, hshort, hconv, _, hdd⟩ := hc
   have hT := optsOk_optTable hok
   cases hs : c.short with
   | some f =>
@@ -290,15 +383,18 @@ theorem scanOpts_choice {ps : List Param} (hok : paramsOk ps = true) (me : Str) 
     have hfind := findShort_of_mem hT hsp (f := f) rfl
     by_cases hk : c.p.kind = .flag
     · simp [Choice.render, Choice.tok, Choice.val, hs, hk, scanOpts, hfind, specOf]
-    · simp [Choice.render, Choice.tok, Choice.val, hs, hk, scanOpts, hfind, specOf, hconv hk]
+    · simp [Choice.render, Choice.val, hs, hk, scanOpts, hfind, specOf, hconv hk]
   | none =>
-    obtain ⟨f, hf⟩ := exists_flag hmem
-    have hsp := spec_mem hf hopt
-    have hfind := findLong_of_mem hT hsp
-    simp only [specOf] at hfind
     by_cases hk : c.p.kind = .flag
-    · simp [Choice.render, Choice.tok, Choice.val, hs, hk, scanOpts, hfind]
-    · simp [Choice.render, Choice.tok, Choice.val, hs, hk, scanOpts, hfind, hconv hk]
+    · simp only [Choice.render, Choice.tok, hs, hk, if_true, List.cons_append, List.nil_append]
+      rw [scanOpts_long_cons hne, hres]
+      simp [Choice.val, hk, specOf]
+    · by_cases he : c.eq = true
+      · simp [Choice.render, Choice.val, hs, hk, he, scanOpts, hres, specOf, hconv hk, hdd he]
+      · have he' : c.eq = false := by simpa using he
+        simp only [Choice.render, hs, hk, he', if_false, Bool.false_eq_true, List.cons_append, List.nil_append]
+        rw [scanOpts_long_cons hne, hres]
+        simp [Choice.val, hk, specOf, hconv hk]
 
 theorem scanOpts_render {ps : List Param} (hok : paramsOk ps = true) (me : Str) :
     ∀ (cs : List Choice), (∀ c ∈ cs, c.ok ps) → ∀ (rest : List Tok) (st : PState),
